@@ -17,5 +17,8 @@ Extraction "c16_model.ml"
   c16_tr_elems c16_tr_size c16_tr_empty c16_tr_at c16_sparse_elems
   c16_hy_size c16_hy_elementAt c16_hy_log c16_hy_accumulate c16_hy_ifElse
   c16_hy_switch_static c16_hy_switch_dynamic c16_hy_switch_range c16_hy_fun
+  c16_nf_ops_manual c16_cw_prims c16_copy c16_dense_begin c16_dense_end c16_dense_before_end c16_dense_before_begin c16_dense_find
+  c16_max_value c16_min_value c16_any_true c16_all_true c16_iseq_get c16_iseq_back c16_iseq_contains c16_iseq_difference_dec c16_iseq_equal
+  c16_iseq_filter c16_iseq_sorted c16_hy_maxn c16_hy_minn Z.gtb
   c16_spec_cmp c16_spec_diff c16_spec_irange c16_spec_sparse c16_spec_switch c16_spec_fold c16_steps
   Z.add Z.sub Z.mul Z.div Z.modulo Z.opp Z.of_nat Z.to_nat Z.ltb Z.leb Z.eqb Z.max Z.min.
